@@ -63,7 +63,7 @@ PROPS["C01"] = {
                   "request is followed by exactly its own response, in order. The implementation's view of each request is checked against an "
                   "independent strict RFC 7230 decoder on every well-formed stream.",
     "level_note": _H1_NOTE + " Open: model-refines-strict-decoder theorem (checked per case). Trailers: trailer_view / serve_roundtrip_any_trailers / "
-                  "trailer_decl_spellings_partial proved for every announcement and every trailer section; announced names are computed by the specification "
+                  "trailer_decl_spellings (every list spelling, SP/HTAB; full strength since /repo 117944e) proved for every announcement and every trailer section; Connection: close is recognised in any letter case (/repo 9dcdbe5; the loop model, the strict reading and close_readings_agree follow it); announced names are computed by the specification "
                   "(RFC 7230 list rule over all Trailer fields), not taken from the implementation.",
     "assumptions": ["netpoll reader and the sense-client-disconnection goroutine are not modelled: they are run over loopback TCP against the model's single answer (tags netpoll:/std:/sense:, +hold)",
                     "DisablePreParseMultipartForm"],
@@ -706,7 +706,7 @@ _upd("C15", "Nested struct types are inside the model (Model/BindNested.lean: ge
      "decoder ever addresses a path that is not a leaf (nested_bind_never_faults); a nested leaf decoder is the top-level decoder on the "
      "request focused on the enclosing JSON object (nested_leaf_is_top_level_field); for every field tree of any depth and width and every "
      "request, outside the known-finding classes, Bind gives every leaf exactly the value of the first present source its own tags name "
-     "(nested_bind_refines_spec_partial; witnesses of the two excluded behaviours nested_bind_refines_spec_fails_at, embedded_default_fails_at); "
+     "(nested_bind_refines_spec_partial; witness of the excluded behaviour nested_bind_refines_spec_fails_at; the second former witness is a regression theorem since /repo 1242bf1: embedded_default_repaired); "
      "binding the same request twice gives the same result in every body state and a streamed body is bound as a buffered one "
      "(bind_idempotent_on_request, bind_independent_of_body_delivery, both_binds_refine_spec_partial).")
 
@@ -830,12 +830,12 @@ PROPS["C14"]["rule"] += (
     "read sizes {1,7,512,4096,16384} x stop points {0,1,3,10,100,4096,8192,8193,9000,100000} x random segmentation x {peer closes, stalls}; one or two uploads followed by the probe, "
     "with the generator's ground truth (targets, bodies, form contents); malformed chunk framing followed by a complete request under every program; truncated uploads and uploads "
     "whose payload is mutated (no ground truth).")
-_upd("C14", "Handlers that consume the stream through the request API: the loop's post-handler step is modelled as in server.go (skipRest and the check of a remembered read error "
-     "run only if the request still references the stream the server built); proved for every program (any read size, stop point, any amount the multipart reader takes): what a form "
-     "parse obtains is a prefix of the body (form_parse_reads_prefix, _fixed), the connection is closed or in sync after every program that keeps the stream or read it to its reported "
-     "end (sync_after_any_consumption_partial, _fixed_partial, sync_after_form_parse, body_all_reads_everything), the extended loop is the earlier loop for attached programs "
-     "(attached_is_plain_model) and goes on at exactly the rest (after_means_next_request_from_rest_any_program). The unrestricted statement is false of the code "
-     "(detached_stream_is_drained_or_closed_fails_at, sync_after_any_consumption_fails_at, stream_error_closes_fails_at_detached): known finding stream-detached-undrained. Spec step for "
+_upd("C14", "Handlers that consume the stream through the request API: the loop's post-handler step is modelled as in server.go since /repo d6f45a0 (skipRest and the check of a remembered read error "
+     "run on the stream the server built, whatever the request references when the handler returns); proved for every program (any read size, stop point, any amount the multipart reader takes): what a form "
+     "parse obtains is a prefix of the body (form_parse_reads_prefix, _fixed), the connection is closed or in sync after EVERY program, detached and replaced streams included "
+     "(sync_after_any_consumption, _fixed, detached_stream_is_drained_or_closed, sync_after_form_parse, body_all_reads_everything), the extended loop is the earlier loop for attached programs "
+     "(attached_is_plain_model) and goes on at exactly the rest (after_means_next_request_from_rest_any_program). The first versions needed a proviso (request still references the stream); the defect behind it was repaired (d6f45a0) and the former counterexamples "
+     "are regression theorems (detached_stream_is_drained_or_closed_repaired, sync_after_replaced_stream_repaired, stream_error_closes_after_body_repaired). Spec step for "
      "sapi, against the ground truth: handlers see an initial run of the requests sent, bytes obtained are a prefix (after a form parse: a suffix) of the body, a form API reports "
      "exactly the fields and files sent, a request that arrived whole is never answered with an error.")
 PROPS["C14"]["level_note"] += (" The amount mime/multipart takes from the stream is not modelled (bufio read-ahead): the model is evaluated for the two extremes and the theorems hold "
